@@ -60,12 +60,11 @@ func same[T any](a, b T) bool { return true }
 //@   assigns nothing
 //@ func UnmarshalPayload
 //@   props C05 C07 C08
-//@   loop 0 invariant true
-//@   loop 0 assigns p.Cert, p.InitiatorIndex, p.ResponderIndex, p.Time, p.CertVersion
+//@   loop 1 invariant true
 //@   callrequires unmarshalPayloadDetails num == 1 && typ == protowire.BytesType
 //@   callrequires ConsumeFieldValue !(num == 1 && typ == protowire.BytesType)
 //@   ensures[errs] result1 == nil || result1 == errInvalidHandshakeMessage || result1 == errInvalidHandshakeDetails
-//@   assumedframe the frame obligation (writes only to the local Payload and to the fresh copy of the certificate bytes) is not discharged by the engine's append model; callers rely on it as before, when the whole function was trusted
+//@   assumedframe the loop's frame cannot name the fields of the address-taken local p (the engine has no target syntax for a local's cells), so the loop havocs whole memory sorts and 'assigns nothing' is not discharged; callers rely on it as before, when the whole function was trusted. The callee's frame (only *p) is proved
 //@   assigns nothing
 //@ func github.com/slackhq/nebula/cert.Recombine
 //@   trusted rebuilds a certificate from its wire details and a public key (cert package)
@@ -184,11 +183,10 @@ func same[T any](a, b T) bool { return true }
 //@ func unmarshalPayloadDetails
 //@   props C05 C07 C08
 //@   requires p != nil
-//@   loop 0 invariant true
-//@   loop 0 assigns p.Cert, p.InitiatorIndex, p.ResponderIndex, p.Time, p.CertVersion
+//@   loop 1 invariant true
+//@   loop 1 assigns p.Cert, p.InitiatorIndex, p.ResponderIndex, p.Time, p.CertVersion
 //@   callrequires ConsumeBytes num == fieldCert && typ == protowire.BytesType
 //@   callrequires ConsumeVarint (num == fieldInitiatorIndex || num == fieldResponderIndex || num == fieldTime || num == fieldCertVersion) && typ == protowire.VarintType
 //@   callrequires ConsumeFieldValue num != fieldCert && num != fieldInitiatorIndex && num != fieldResponderIndex && num != fieldTime && num != fieldCertVersion
 //@   ensures[errs] result == nil || result == errInvalidHandshakeDetails
-//@   assumedframe the frame obligation (writes only to *p and to the fresh copy of the certificate bytes) is not discharged by the engine's append model
 //@   assigns p.Cert, p.InitiatorIndex, p.ResponderIndex, p.Time, p.CertVersion
